@@ -160,8 +160,12 @@ VARIABLES stage,   \* "hdr" | "main" | "tu" | "done"
 vars == <<stage, si, files, cur, ns, ents>>
 
 Fid(d, n) == d \o "/" \o n
-MainId(i) == IF i = 1 THEN "src/m1.c" ELSE "src/m2.c"
-MainName(i) == IF i = 1 THEN "m1.c" ELSE "m2.c"
+\* C06: the code base also holds a byte-identical COPY of the first main (a vendored duplicate) in another
+\* directory; the copy may be compiled by other commands than the original, or by none
+HasCopy == Profile = "c06"
+CopyId == "inc/m1.c"
+MainId(i) == IF i = 1 THEN "src/m1.c" ELSE IF i = 2 THEN "src/m2.c" ELSE CopyId
+MainName(i) == IF i = 1 THEN "m1.c" ELSE IF i = 2 THEN "m2.c" ELSE "m1.c"
 Empty == [x \in {} |-> x]
 
 Init == stage = "hdr" /\ si = 1 /\ files = Empty /\ cur = <<C>> /\ ns = 0 /\ ents = <<>>
@@ -181,13 +185,15 @@ AddStmt == /\ stage = "main" /\ ns < MaxMain
            /\ ns' = ns + 1 /\ UNCHANGED <<stage, si, files, ents>>
 CloseMain == /\ stage = "main" /\ ns > 0
              /\ files' = files @@ (MainId(si) :> [dir |-> "src", name |-> MainName(si), items |-> cur \o Probe])
+                          @@ (IF HasCopy /\ si = 1 THEN (CopyId :> [dir |-> "inc", name |-> "m1.c", items |-> cur \o Probe, copyof |-> MainId(1)])
+                              ELSE Empty)
              /\ cur' = <<C>> /\ ns' = 0
              /\ IF si < NMains THEN si' = si + 1 /\ stage' = "main" ELSE si' = 1 /\ stage' = "tu"
              /\ UNCHANGED ents
 
 DefsOf(x, hdr) == [m \in Macros |-> IF m = "X" THEN x ELSE IF m = "HDR" THEN hdr ELSE "U"]
 AddEntry == /\ stage = "tu" /\ Len(ents) < NEntries
-            /\ \E p \in 1..Len(Plats), mi \in 1..NMains, x \in {"U", "1"}, ids \in IdirChoices, fo \in ForcedChoices,
+            /\ \E p \in 1..Len(Plats), mi \in 1..(NMains + IF HasCopy THEN 1 ELSE 0), x \in {"U", "1"}, ids \in IdirChoices, fo \in ForcedChoices,
                   cc \in CcChoices, xf \in FlagChoices, gh \in GhostChoices, hd \in HdrChoices :
                  \* canonical: platforms are used in order, without gaps
                  /\ (IF p = 1 THEN TRUE ELSE \E j \in 1..Len(ents) : ents[j].plat = Plats[p - 1])
